@@ -23,9 +23,10 @@ TraceInputSets == LET M == ModelLines IN [j \in DOMAIN M |-> {M[j].inputs}]
 
 VARIABLES l,     \* next line of the log
           sc,    \* index of the current scenario (= its model index)
-          seen   \* violations already reported in this scenario
+          seen,  \* violations already reported in this scenario
+          thrash \* an ungated run with fewer cache slots than concurrently active processes
 
-ovars == <<vars, l, sc, seen>>
+ovars == <<vars, l, sc, seen, thrash>>
 
 Count(seq, Test(_)) == Len(SelectSeq(seq, Test))
 SatAdd(n, k) == IF n + k >= 2 THEN 2 ELSE n + k
@@ -190,12 +191,21 @@ Line(kind, v, r) ==
   "OBS|" \o kind \o "|" \o v.p \o "|" \o Str(sc) \o "|" \o Str(l) \o "|" \o Str(r.n) \o "|"
   \o v.pid \o "|" \o Str(v.t) \o "|" \o Str(v.kf)
 
+(* KF_cache_thrash_instances: the cache holds processes by value; one that is evicted while   *)
+(* work for it is still in flight on the engine's threads (ungated runs, cache_cap below the  *)
+(* number of concurrently active processes) is loaded again on the next access and then       *)
+(* exists twice: both instances see a step finish and both start its successor, or each       *)
+(* misses what the other did (cache.rs:19-34, 69-89; nothing pins a process that is in use).  *)
 Report(VS, r) ==
-  \A v \in VS : PrintT(Line(IF v.kf = {} THEN "VIOLATION" ELSE "KNOWN", v, r))
+  \A v \in VS :
+    LET w == IF v.kf = {} /\ thrash THEN [v EXCEPT !.kf = {"KF_cache_thrash_instances"}] ELSE v
+    IN PrintT(Line(IF w.kf = {} THEN "VIOLATION" ELSE "KNOWN", w, r))
 
 ObsModel ==
   /\ l <= Len(Log) /\ Log[l].ev = "model"
   /\ l' = l + 1 /\ sc' = sc + 1 /\ seen' = {}
+  /\ thrash' = LET x == Log[l].x IN
+               IF "natural" \in DOMAIN x /\ "cap" \in DOMAIN x /\ "n" \in DOMAIN x THEN x.cap < x.n ELSE FALSE
   /\ procs' = [p \in Pids |-> AbsentProc]
   /\ queue' = {} /\ spawn' = {}
   /\ budget' = MaxActions
@@ -204,15 +214,15 @@ ObsModel ==
 
 ObsSub ==        \* another model of the bundle; the main one (which resets the scenario) follows
   /\ l <= Len(Log) /\ Log[l].ev = "submodel"
-  /\ l' = l + 1 /\ sc' = sc + 1 /\ UNCHANGED <<vars, seen>>
+  /\ l' = l + 1 /\ sc' = sc + 1 /\ UNCHANGED <<vars, seen, thrash>>
 
 ObsSkip ==
   /\ l <= Len(Log) /\ Log[l].ev \in {"end", "note"}
-  /\ l' = l + 1 /\ UNCHANGED <<vars, sc, seen>>
+  /\ l' = l + 1 /\ UNCHANGED <<vars, sc, seen, thrash>>
 
 ObsStep ==
   /\ l <= Len(Log) /\ Log[l].ev = "step"
-  /\ l' = l + 1 /\ sc' = sc
+  /\ l' = l + 1 /\ sc' = sc /\ thrash' = thrash
   /\ LET r == Log[l] IN
      /\ procs' = [pid \in Pids |->
                     IF pid \notin DOMAIN r.post.procs THEN procs[pid]
@@ -262,7 +272,7 @@ ObsStep ==
         IN /\ Report(new, r)
            /\ seen' = seen \cup new
 
-ObsInit == Init /\ l = 1 /\ sc = 0 /\ seen = {}
+ObsInit == Init /\ l = 1 /\ sc = 0 /\ seen = {} /\ thrash = FALSE
 ObsNext == ObsModel \/ ObsSub \/ ObsSkip \/ ObsStep
 ObsSpec == ObsInit /\ [][ObsNext]_ovars
 
